@@ -11,6 +11,9 @@ FUNCTIONS = [
     'circus.stream.redirector:Redirector.remove_fd',
     'circus.stream.redirector:Redirector.start',
     'circus.stream.redirector:Redirector.stop',
+    # on spawn / kill: a new generation's pipes get their own handler even when the fd number is reused
+    'circus.stream.redirector:Redirector.add_redirections',
+    'circus.stream.redirector:Redirector.remove_redirections',
 ]
 LEMMAS = []
 FRAMES = [
@@ -28,9 +31,9 @@ ASSUMPTIONS = ['A-PY', 'A-1THREAD', 'T-PIPE: what os.read returns (order, comple
                'events >= 0 (IOLoop event masks)', 'A-STREAMS: the stream object is an arbitrary callable (may raise)']
 TRUSTED = ['os.read, IOLoop.add_handler/remove_handler', 'sys.exc_clear (absent on py3: AttributeError, swallowed by the code)']
 NOT_DECIDED = [
-    'Redirector.add_redirections / remove_redirections / get_process_pipes (called on spawn and kill) and '
-    'Process.close_output_channels are NOT verified: the table entries are tuples, which the executor stores as JSON-heap '
-    'lists whose per-object frame it cannot state; the watcher lifecycle sees these methods through frame-only placeholders',
+    'Process.close_output_channels is not verified; the watcher lifecycle (spawn_process, kill_process) sees the '
+    'Redirector methods through frame-only placeholders (A-REDIRFRAME), so that they are CALLED at spawn and kill is '
+    'decided only syntactically',
     'in-order / complete delivery ACROSS events is an inductive consequence of the per-event clause plus T-PIPE and '
     'T-TORNADO (one call per readiness event, sequential): the induction over the event history is not mechanised',
     'that the stream object (FileStream etc.) writes the chunk (C20 covers FileStream.write_data)',
@@ -41,5 +44,6 @@ TECHNIQUE = ('contract-based deductive verification (ghost read log / delivery l
 LEVEL_TEXT = ('Per readiness event: at most one os.read of that fd; a non-empty chunk is handed exactly once, unchanged, to the '
               'stream registered for the handler\'s channel with the handler\'s worker pid and channel name; EAGAIN changes '
               'nothing; EOF or a pure error event removes the fd from the active table, the pipes table and the loop. '
-              'start/stop/_start_one/_stop_one/remove_fd keep "loop watches exactly the active fds".')
-LEVEL_NOTE = 'add/remove_redirections and the cross-event induction are not decided.'
+              'start/stop/_start_one/_stop_one/remove_fd/add_redirections/remove_redirections keep "loop watches exactly the '
+              'active fds"; add_redirections gives a new worker its own handler even on a reused descriptor number.')
+LEVEL_NOTE = 'The cross-event induction is not mechanised.'
